@@ -120,6 +120,7 @@ def eval (ρ : Env) : Expr → Option CVal
     | some (.int a) => a.min.toInt?.map .int
     | _ => none
   | .cref e => eval ρ e
+  | .vref e => eval ρ e
 def evalList (ρ : Env) : List Expr → Option (List CVal)
   | [] => some []
   | e :: es =>
@@ -141,6 +142,7 @@ def EnvOk (ρ : Env) : Expr → Prop
   | .upper e => EnvOk ρ e
   | .lower e => EnvOk ρ e
   | .cref e => EnvOk ρ e
+  | .vref e => EnvOk ρ e
   | _ => True
 def EnvOkList (ρ : Env) : List Expr → Prop
   | [] => True
